@@ -368,6 +368,7 @@ def getitem(it, base, idx, frame, node):
         i = _checked_index(it, base, idx, frame, node)
         if is_sym(i):
             it.path.index_term(i, base.n)
+            _register_view_index(it, base, i)
         elt = base.vec().f(i)
         return tag_np(it, elt) if is_sym(elt) else elt
     if isinstance(base, Masked):
@@ -383,6 +384,18 @@ def getitem(it, base, idx, frame, node):
     if isinstance(base, Opaque):
         return Opaque(base.tag + "[]")
     raise Unsupported(f"subscript of {type(base).__name__}")
+
+
+def _register_view_index(it, base: Arr, i):
+    """a view a[lo:hi] indexed at i touches position lo + i of the underlying array: an index term of that array"""
+    lo = base.lo
+    if isinstance(lo, int) and lo == 0:
+        return
+    try:
+        full = base.cell.val.n
+        it.path.index_term(ops.scalar_bin("+", lo, i), full)
+    except Exception:  # noqa
+        pass
 
 
 def _checked_index(it, base: Arr, idx, frame, node):
@@ -495,6 +508,7 @@ def setitem(it, base, idx, v, frame, node):
         i = _checked_index(it, base, idx, frame, node)
         if is_sym(i):
             it.path.index_term(i, base.n)
+            _register_view_index(it, base, i)
         val = lift(_cast_for(cell, v), kind)
         base.store_vec(Vec(base.n, lambda j: ops.zite(ops.scalar_cmp("==", j, i), val, lift(old.f(j), kind)), kind))
         return
@@ -1465,6 +1479,7 @@ def install(it):
     reg("numpy.frexp", np_frexp)
     reg("numpy.where", np_where)
     reg("numpy.atleast_2d", np_atleast_2d)
+    reg("numpy.searchsorted", np_searchsorted)
     reg("numpy.atleast_1d", lambda it_, a: a if isinstance(a, Arr) else Arr.new(Vec(1, lambda i: lift(a, "real"), "real")))
     reg("numpy.vstack", np_vstack)
     reg("numpy.hstack", np_hstack)
@@ -1771,6 +1786,25 @@ def np_where(it, cond, *rest):
         if getattr(mm, "neg_of", None) is m:
             p.assume(cnt + c2 == m.n)
     return (Arr.new(v),)
+
+
+def np_searchsorted(it, a, v, side="left"):
+    """k = np.searchsorted(a, v): for a SORTED a (obligation), 0 <= k <= len(a), a[p] < v for p < k, a[p] >= v for p >= k"""
+    if side != "left":
+        raise Unsupported("searchsorted side")
+    av = _vec_of(a)
+    p = it.path
+    n = av.n
+    p.prove(QAll(ops.scalar_bin("-", n, 1), lambda q: ops.scalar_cmp("<=", av.f(q), av.f(q + 1))), "numpy.searchsorted/sorted_argument", kind="requires", desc="np.searchsorted needs a sorted array", props=it.config.get("implicit_props"))
+    k = p.int("ss")
+    nv = z3.IntVal(n) if isinstance(n, int) else n
+    p.assume(z3.And(k >= 0, k <= nv))
+    vv = ops.to_term(v) if not isinstance(v, (int, float)) else v
+    p.add_ufact(UFact(1, lambda q: z3.If(q < k, ops.to_term(av.f(q)) < vv, ops.to_term(av.f(q)) >= vv), [(0, n)], "searchsorted:partition"))
+    # adjacent order (just proved) => pairwise order: the usual induction, used as a lemma
+    p.add_ufact(UFact(2, lambda a_, b_: z3.Implies(a_ <= b_, ops.to_term(av.f(a_)) <= ops.to_term(av.f(b_))), [(0, n), (0, n)], "searchsorted:sorted_pairwise"))
+    p.index_term(k, n)
+    return k
 
 
 def math_pow(it, a, b):
